@@ -100,6 +100,14 @@ impl Scenario for C17S {
             "late_routes": r.below(3),
         })
     }
+    fn died(&self, how: &str, text: &str) -> Option<Violation> {
+        // the scenario's main thread makes one library call that may block: dropping the proxy
+        if how == "sim-abort" && text.contains("DEADLOCK") {
+            let line = text.lines().find(|l| l.contains("'main'")).unwrap_or("").trim().to_string();
+            return Some(Violation { sig: "deadlock:proxy-drop".into(), detail: format!("dropping the router's proxy blocked for ever: {}", line) });
+        }
+        None
+    }
     fn run(&self, p: &Value) -> Outcome {
         let mut out = Outcome::default();
         start_sim(p);
